@@ -6,7 +6,8 @@ open Proto Store StoreIO Pseudo
 
 /-  stateful line protocol (state = heap-layer store with roles + plain tables in lock step):
       reset | init <expcols> <mccols> | newMethod | uniformRA <lo> <hi> <deviates>   (floats as bit patterns)
-      genFixed <sets> | genMC <keep> <presel> <draw> <sets> <expFields> | genSig <cols> | merge b s
+      genFixed <sets> | genMC <keep> <presel> <draw> <sets> <expFields> |
+      genComp <keep> <sets> <rates> <presel> <draw> <expFields> | genSig <cols> | merge b s
       initTrial e <pre> <sel> <idx> <stat> | unblind <pre> <sel> <idx> <stat> | unblindAdopt … | evaluate
     <sel> = N | i:<ints> | m:<bools>;  <idx> = N | <name>:<perm>;  cols = name:dt:vals+…
     answer:  h=<id|N> cache=<id|N> events=<id|N> errs=<failing container ops> | <heap containers> | <tables>
@@ -31,6 +32,8 @@ def pGOp (toks : List String) : Option GOp :=
   | ["genFixed", sets] => some (.genFixed (pCols sets))
   | ["genMC", keep, presel, draw, sets, ef] =>
       some (.genMC (pList pN keep) (pOSel presel) (pList pI draw) (pCols sets) (pList pN ef))
+  | ["genComp", keep, sets, rates, presel, draw, ef] =>
+      some (.genComposite (pList pN keep) (pCols sets) (pCols rates) (pOSel presel) (pList pI draw) (pList pN ef))
   | ["genSig", cols] => some (.genSig (pCols cols))
   | ["merge", b, s] => some (.merge (pN b) (pN s))
   | ["initTrial", e, pre, sel, idx, stat] => some (.initTrial (pN e) (pCfg pre sel idx stat))
@@ -92,7 +95,7 @@ def answer (st : DState) (line : String) : DState × String :=
         match h with
         | none => st.2
         | some id =>
-          if cmd == "genFixed" || cmd == "genMC" || cmd == "genSig" then (st.2.1 ++ [id], id)
+          if cmd == "genFixed" || cmd == "genMC" || cmd == "genComp" || cmd == "genSig" then (st.2.1 ++ [id], id)
           else if tmp then (st.2.1, id) else st.2
       (((g', ts'), hs'), s!"h={fON h} cache={fON g'.roles.cache} events={fON g'.roles.events} errs={errs} | {dump g' ts'}")
   | [] => (st, "bad-op")
